@@ -233,6 +233,7 @@ key, tol = %(key)r, %(tol)r
 if key == "drift":
     import numpy as np
     E = np.array(res["energies"]); d = float(np.abs(E - E[0]).max() / abs(E[0]))
+    if case.get("program"): d = res["step_defect"]
     print("relative energy drift", d, "tolerance", tol)
     sys.exit(1 if d > tol else 0)
 print(key, "=", res.get(key), "tolerance", tol)
@@ -450,6 +451,10 @@ def gen_simfd_cases(ctx, laws):
                          cols=[rng.randrange(0, 24) for _ in range(4)], ops=ops, pattern=pattern, kind=kind,
                          eta=round(rng.uniform(0.1, 0.5), 2) if rng.random() < 0.3 else 0.0,
                          T1=[1.0, 0.3, 0.0], T2=[-0.3, 1.0, 0.0])
+                # history before the check: consecutive unsaved solves, saved solves, a rewind
+                if kind != "adaptive" and pattern in ("scheme-then-stress", "step-size-changed-after-stress"):
+                    c["presteps"] = rng.choice([["solve", "solve"], ["solve", "save", "solve"], ["solve", "save", "solve", "save", ["set_iter", 0], "solve"]])
+                    c["amp"] = 0.01
                 cases.append(c)
                 cid += 1
     return cases
@@ -486,6 +491,34 @@ def gen_drift_cases(ctx):
     out.append({"id": "d4", "dim": 2, "n": [5, 2, 1], "L": [5.0, 1.0, 1.0], "elemType": "QUAD4", "law": "SaintVenantKirchhoff",
                 "params": {"lmbda": 30.0, "mu": 20.0, "K": 0.0}, "absTol": 1e-9, "rho": 1.0, "dt": 0.05, "algo": "midpoint",
                 "stress": "quadrature", "nPoints": rng.choice([4, 6, 8]), "v0": 0.8, "nStep": 15 if quick else 100, "exact_rule": True})
+    def prog(kind, n):
+        if kind == "save-every-k":
+            k = rng.choice([2, 3, 4])
+            return [x for i in range(n) for x in (["solve", "save"] if (i + 1) % k == 0 else ["solve"])]
+        if kind == "never-saved":
+            return ["solve"] * n
+        if kind == "rewind":
+            m = max(3, n // 3)
+            back = rng.randrange(0, m - 1)
+            return ["solve", "save"] * m + [["set_iter", back]] + ["solve"] * 2 + ["save"] + ["solve"] * (n - m - 2)
+        if kind == "dt-changed":
+            m = n // 2
+            return ["solve"] * m + ["save", ["dt", round(rng.uniform(0.02, 0.08), 3)]] + ["solve", "solve", "save"] * ((n - m) // 2)
+        raise KeyError(kind)
+    nS = 12 if quick else 60
+    kinds = ["save-every-k", "never-saved", "rewind", "dt-changed"]
+    specs = [("gonzalez", None, "NeoHookean", {"K": 60.0}), ("quadrature", 1e-9, "MooneyRivlin", {"K1": 20.0, "K2": 8.0, "K": 30.0}),
+             ("gonzalez", None, "CiarletGeymonat", {"K1": 20.0, "K2": 5.0, "K": 40.0}), ("quadrature", None, "SaintVenantKirchhoff", {"lmbda": 30.0, "mu": 20.0, "K": 0.0})]
+    for i, kind in enumerate(kinds):
+        stress, etol, law, params = specs[(i + (0 if quick else rng.randrange(4))) % 4] if not quick else specs[i]
+        c = {"id": "h%d" % i, "dim": 2, "n": [5, 2, 1], "L": [5.0, 1.0, 1.0], "elemType": "QUAD4" if i % 2 == 0 else "TRI3", "law": law, "params": params,
+             "absTol": 1e-9, "rho": 1.0, "dt": 0.05, "algo": "midpoint", "stress": stress, "v0": round(rng.uniform(0.6, 1.0), 3),
+             "nStep": nS, "program": prog(kind, nS), "program_kind": kind}
+        if stress == "quadrature":
+            c["nPoints"] = 5 if etol is None else 1
+            c["energyTol"] = etol
+            c["exact_rule"] = law == "SaintVenantKirchhoff"
+        out.append(c)
     if not quick:
         out.append({"id": "d2", "dim": 3, "n": [4, 1, 1], "L": [4.0, 1.0, 1.0], "elemType": "HEXA8", "law": "SaintVenantKirchhoff",
                     "params": {"lmbda": 40.0, "mu": 30.0, "K": 0.0}, "absTol": 1e-9, "rho": 1.0, "dt": 0.04, "algo": "midpoint",
@@ -747,6 +780,18 @@ def run(ctx):
         for n, s in stray.items():
             for key, what, rep in search_law_defects(ctx, M, model, only=[n]):
                 ctx.violation(key, what + " (the law sums %s)" % s, rep, True)
+    # ---- 3a. correspondence inputs; the implementation side runs while Coq compiles ----------------
+    quick = ctx.tier == "quick"
+    all_laws = laws + (["AutoDiff"] if "AutoDiff" in M["skipped"] and "MooneyRivlin" in M["laws"] else [])
+    scases = gen_state_cases(ctx, all_laws, 4 if quick else 16)
+    fcases = gen_fd_cases(ctx, laws, 6 if quick else 24)
+    pcases = gen_surface_cases(ctx, 3 if quick else 9)
+    dcases = gen_drift_cases(ctx)
+    tcases = gen_simfd_cases(ctx, laws)
+    qcases = gen_quad_cases(ctx, laws)
+    req = {"states": scases, "fd": fcases, "surface": pcases, "drift": dcases, "simfd": tcases, "quad": qcases}
+    impl_pool = ThreadPoolExecutor(max_workers=1)
+    impl_future = impl_pool.submit(ctx.impl_python, os.path.join(common.VERIF, "corr", "C18_impl.py"), (), 1500, json.dumps(req))
     # ---- 2. proofs --------------------------------------------------------------------
     ctx.copy_props("C18/C18_tac.v", "C18/C18_InvDefs.v", "C18/C18_invariants.v", "C18/C18_pdderive.v", "C18/C18_kinematics.v",
                    "C18/C18_gonzalez.v", "C18/C18_energy.v")
@@ -783,17 +828,9 @@ def run(ctx):
                 bad = [r for r in allres if r.failed_file == f][0]
                 ctx.violation("proof-broken:" + str(f), "theorem file %s no longer checks and no failing state was found" % f,
                               {"obligation": f, "log": bad.log[-3000:]}, found_input=False)
-    # ---- 3. correspondence --------------------------------------------------------------
-    quick = ctx.tier == "quick"
-    all_laws = laws + (["AutoDiff"] if "AutoDiff" in M["skipped"] and "MooneyRivlin" in M["laws"] else [])
-    scases = gen_state_cases(ctx, all_laws, 4 if quick else 16)
-    fcases = gen_fd_cases(ctx, laws, 6 if quick else 24)
-    pcases = gen_surface_cases(ctx, 3 if quick else 9)
-    dcases = gen_drift_cases(ctx)
-    tcases = gen_simfd_cases(ctx, laws)
-    qcases = gen_quad_cases(ctx, laws)
-    req = {"states": scases, "fd": fcases, "surface": pcases, "drift": dcases, "simfd": tcases, "quad": qcases}
-    rc, out, err = ctx.impl_python(os.path.join(common.VERIF, "corr", "C18_impl.py"), input=json.dumps(req), timeout=1500)
+    # ---- 3. correspondence (the implementation side was started before the proofs) -------------
+    rc, out, err = impl_future.result()
+    impl_pool.shutdown()
     if rc != 0:
         ctx.obligation("corr:impl", False, err[-1500:])
         ctx.violation("corr:impl-crash", "the implementation-side harness failed: " + (err.strip().splitlines()[-1][:200] if err.strip() else "rc=%d" % rc),
@@ -863,6 +900,15 @@ def run(ctx):
                 ctx.violation("setter-rejects:%s" % tag, "a valid setter sequence %s is rejected: %s" % (c["ops"], r["rejected"]),
                               {"replay_py": REPLAY_CASE % dict(case=json.dumps(c), fn="run_simfd", key="__none__", tol=0)}, True)
             continue
+        for key in ("sim:K same as fresh simulation", "sim:F same as fresh simulation"):
+            if key in r:
+                ctx.note_case("simfd-history:%s:%s" % (tag, json.dumps(c["presteps"])))
+                if not r[key] <= 1e-9:
+                    ctx.obligation("simfd:%s:%s" % (c["id"], key), False, "defect %.3g" % r[key])
+                    ctx.violation("assembled-vs-fresh:%s" % c["kind"],
+                                  "after the history %s (setters %s) Construct_local_matrix_system returns a %s that differs from the one of a fresh simulation in the same state (u_n, v_n, a_n, u_{n+1}) by %.3g relative (%s, %s)"
+                                  % (c["presteps"], c["ops"], "tangent" if key.startswith("sim:K") else "residual", r[key], c["elemType"], c["law"]),
+                                  {"replay_py": REPLAY_CASE % dict(case=json.dumps(c), fn="run_simfd", key=key, tol=1e-9), "defect": r[key], "presteps": c["presteps"]}, True)
         val = r["sim:A=-dF/du_np1"]
         nsim += 1
         worst_sim = max(worst_sim, val)
@@ -912,20 +958,21 @@ def run(ctx):
     for c, r in zip(dcases, impl["drift"]):
         if "error" in r:
             ctx.obligation("drift:%s" % c["id"], False, r["error"])
-            ctx.violation("drift-raises:%s" % c["id"], "free-vibration run raised: %s" % r["error"],
+            ctx.violation("drift-raises:%s:%s" % (c["stress"], c.get("program_kind", "save-every-step")), "free-vibration run raised: %s" % r["error"],
                           {"replay_py": REPLAY_CASE % dict(case=json.dumps(c), fn="run_drift", key="drift", tol=DRIFT_TOL), "trace": r.get("trace")}, True)
             continue
         E = r["energies"]
-        d = max(abs(x - E[0]) for x in E) / abs(E[0])
-        drifts[c["id"] + ":" + c["law"] + ":" + c["stress"] + (":n=%d" % c["nPoints"] if c["stress"] == "quadrature" else "")] = d
-        tol = DRIFT_TOL if c["stress"] == "gonzalez" or c.get("exact_rule") else 1e-6      # quadrature: conservation up to the rule's error (exact for an energy quadratic in E)
+        # per step: from the state before each Solve to the state after it (robust to rewinds / unsaved steps)
+        d = r["step_defect"] if c.get("program") else max(abs(x - E[0]) for x in E) / abs(E[0])
+        drifts[c["id"] + ":" + c["law"] + ":" + c["stress"] + (":n=%d" % c["nPoints"] if c["stress"] == "quadrature" else "") + (":" + c["program_kind"] if c.get("program_kind") else "")] = d
+        tol = DRIFT_TOL if c["stress"] == "gonzalez" or c.get("exact_rule") or c.get("energyTol") else 1e-6      # quadrature: conservation up to the rule's error (exact for an energy quadratic in E)
         ctx.note_case("drift:%s:%s:%s" % (c["law"], c["stress"], c["elemType"]), traces=len(E))
         nontrivial = r["umax"] > 0.05 * c["L"][1]
         ctx.obligation("drift:%s" % c["id"], d <= tol and nontrivial, "relative drift %.3g over %d steps (umax %.3g)" % (d, len(E) - 1, r["umax"]))
         if d > tol:
-            ctx.violation("energy-drift:%s%s:%s" % (c["stress"], ":even-nPoints" if c.get("exact_rule") else "", c["law"]),
-                          "kinetic + stored energy drifts by %.3g (relative) over %d midpoint steps with the %s stress, %s, dt=%g (tolerance %.1g)"
-                          % (d, len(E) - 1, c["stress"], c["law"], c["dt"], tol),
+            ctx.violation("energy-drift:%s%s:%s" % (c["stress"], ":" + c["program_kind"] if c.get("program_kind") else (":even-nPoints" if c.get("exact_rule") else ""), c["law"]),
+                          "kinetic + stored energy changes by %.3g (relative, worst single Solve) over %d midpoint steps with the %s stress, %s, dt=%g, step program %s (tolerance %.1g)"
+                          % (d, len(E) - 1, c["stress"], c["law"], c["dt"], c.get("program_kind", "save-every-step"), tol),
                           {"replay_py": REPLAY_CASE % dict(case=json.dumps(c), fn="run_drift", key="drift", tol=tol), "energies": E[:10]}, True)
     ctx.cov["energy_drift_relative"] = drifts
     # thorough: model-level derivative sweep as an independent cross-check of the Coq decision
